@@ -263,7 +263,8 @@ class Float(Domain):
             if random_state is None:
                 random_state = np.random
             log_items = random_state.uniform(logmin, logmax, size=size)
-            items = np.exp(log_items)
+            # exp(log(x)) may differ from x by round-off
+            items = np.clip(np.exp(log_items), domain.lower, domain.upper)
             return _sanitize_sample_result(items, domain)
 
     # Transform is -log(1 - x)
